@@ -386,6 +386,20 @@ def run(ctx):
                 events.append(e)
                 ncold += 1
     ctx.extra["cold_process_observations"] = ncold
+    # one forced preemption at every source line of a call (no hooks): A stops before its k-th line, B - an ordinary call or
+    # a bulk of calls on values never seen before - runs completely, A resumes
+    from . import c19_preempt
+    pp = c19_preempt.pairs(rnd, rnd.sample(T.versions(), 2) if quick else T.versions(), quick)
+    npre = 0
+    for part in pmap(c19_preempt.preempt_chunk, [pp[k::16] for k in range(16) if pp[k::16]], fresh=True):
+        for e in part:
+            if "harness_error" in e:
+                ctx.machinery_failure("preemption scheduler: " + e["harness_error"])
+            else:
+                events.append(e)
+                npre += 1
+    ctx.extra["line_preemption_observations"] = npre
+    ctx.extra["line_preemption_pairs"] = ["%s | %s" % ("/".join(str(x)[:12] for x in a), "/".join(str(x)[:12] for x in b)) for (a, b, _s) in pp]
     # T: stress
     for part in pmap(_stress_chunk, [(ctx.seed * 50 + k, 8, 1 if quick else 6) for k in range(8 if quick else 16)]):
         events.extend(part)
@@ -404,8 +418,9 @@ def run(ctx):
     ctx.rule = ("every maximal path of the 2-thread model graph (all interleavings of the five steps of two "
                 "datatype_factory calls) x job pairs, simulated 3-thread behaviours, forced on real threads through the "
                 "yield points; first use in fresh interpreters (forced schedules of the first two calls of a version; two "
-                "threads first-using a version at the same time with delays 0..300 ms); plus 8-thread stress rounds over a corpus of parse/build/encode/validate/factory calls of "
+                "threads first-using a version at the same time with delays 0..300 ms); one forced preemption before every source line a call executes inside hl7apy (sys.settrace, no hooks), the partner being an ordinary call or a bulk of calls on fresh values; plus 8-thread stress rounds over a corpus of parse/build/encode/validate/factory calls of "
                 "all versions; distinct by (kind, schedule, thread, job)")
-    ctx.assumptions += ["a forced switch can only happen at the four yield points of datatype_factory; everything "
-                        "else is covered by preemptive stress only",
+    ctx.assumptions += ["forced switches: at the four yield points of datatype_factory (all interleavings) and, one per schedule, "
+                        "before every source line of a call; two or more preemptions inside one call away from the yield points "
+                        "are covered by preemptive stress only",
                         "results are compared through class name + ER7 text / exception class"]
